@@ -10,7 +10,7 @@ CFG = """SPECIFICATION Spec
 CONSTANTS
   Keys = {"a", "b", "c", "d"}
   Labels = {0, 1}
-  Filters = {"null", "all", "lx1", "lx0", "fnx0", "nlx1", "nsa", "anx0", "anx1"}
+  Filters = {"null", "all", "lx1", "lx0", "fnx0", "nlx1", "nsa", "anx0", "anx1", "nsp1", "nsp2"}
 INVARIANT Done
 CHECK_DEADLOCK FALSE
 """
@@ -27,9 +27,9 @@ CLASSES = {
     "C14": {"list-failure-not-fatal", "stopped-without-cause", "failure-not-reported", "ready-after-failed-first-list",
             "deliberate-close-reports-failure", "shutdown-timeout", "close-hangs"},
     "C05": ORDER | {"cache-older-than-event", "ctl-events-differ"},
-    "C06": KERNEL | {"filter-not-quiescent", "filter-not-set", "fsub-events-differ", "fsub-emits-other", "events-not-emitted",
+    "C06": KERNEL | {"refilter-lost", "filter-not-quiescent", "filter-not-set", "fsub-events-differ", "fsub-emits-other", "events-not-emitted",
                      "sync-list-not-parent-listing", "list-not-snapshot", "lost-at-quiescence", "stuck-at-quiescence", "order", "recv-unexplained"},
-    "C07": KERNEL | {"equal-filters-differ", "fsub-events-differ", "fsub-emits-other", "events-not-emitted", "filter-not-quiescent", "filter-not-set",
+    "C07": KERNEL | {"refilter-lost", "equal-filters-differ", "fsub-events-differ", "fsub-emits-other", "events-not-emitted", "filter-not-quiescent", "filter-not-set",
                      "sync-list-not-parent-listing", "recv-unexplained", "stuck-at-quiescence"},
     "C08": {"ready-before-sync", "publish-before-ready", "parent-not-ready", "ready-before-parent", "deferred-ready-without-filter",
             "ready-unsynced", "ready-twice", "event-before-ready", "emit-before-ready", "ready-observed-not-declared", "list-not-snapshot",
